@@ -11,6 +11,11 @@
  * Every pass has to return >= 0 and yield exactly the written tree (the
  * comparison is c09_compare() of the C leg: nesting, order, names, values,
  * parent/prev links; top-level parent is the node handed to read()).
+ * Before 2/5 of the reads one or two set_format() calls with an unknown style
+ * character (delimiters, comment and escape lists of another format) are made:
+ * they must return false and change nothing - the read that follows has to
+ * give the same tree.  In 1/3 of the cases the parser object then gets another
+ * format (accepted set_format) and a new tree rendered in that style.
  */
 #include <cstdio>
 #include <cstdlib>
@@ -41,6 +46,28 @@ static char fname[64];
 
 uint64_t vf_cases(void) { return vf_thorough ? 500000 : 40000; }
 
+/* description with an unknown style character and delimiters / lists of another format, exact-size block */
+static char *refused_format(vf_rng *r, const format *active, size_t *size)
+{
+	static const char unknown[] = "?q-X0+~";
+	static const char *const tails[] = { "", "!", "%&", "!%&$", "; '", "% `\"", ";", "!# `'\"" };
+	const format *o;
+	char buf[40];
+	size_t n;
+	char *d;
+	do { o = &c09_formats[vf_below(r, (uint32_t) c09_nformats)]; } while (o == active || !o->str);
+	n = strlen(o->str) < 6 ? strlen(o->str) : 6;
+	memcpy(buf, o->str, n);
+	buf[n] = 0;
+	buf[1] = unknown[vf_below(r, sizeof(unknown) - 1)];
+	if (n == 6) strcat(buf, tails[vf_below(r, sizeof(tails) / sizeof(*tails))]);
+	if (vf_chance(r, 1, 6)) buf[2] = buf[0];
+	*size = strlen(buf) + 1;
+	d = static_cast<char *>(vf_xalloc(*size));
+	memcpy(d, buf, *size);
+	return d;
+}
+
 void vf_case(uint64_t idx, vf_rng *r)
 {
 	static const struct { unsigned sect, opt; } flagsets[] = {
@@ -51,133 +78,176 @@ void vf_case(uint64_t idx, vf_rng *r)
 		{ 0x10, 0x06 },            /* "Esc"  parse_config */
 		{ 0x00, 0x07 },            /* "ns"   mpt_node_parse default */
 	};
+	P p;
+	unsigned sect, opt;
+	char fl[16];
+	int keep_defaults = 0;
+	int rounds = vf_chance(r, 1, 3) ? 2 : 1;     /* second round: accepted change of the format, text in the new style */
 	const format *f = &c09_formats[idx % c09_nformats];
-	tnode *root = c09_t_new(1);
-	gen g;
-	render ro;
-	vf_rng deco;
-	char fl[16], desc[200];
-	int keep_defaults = 0, passes, mode;
-	FILE *fp;
 
-	memset(&g, 0, sizeof(g));
-	g.f = f;
 	if (vf_chance(r, 2, 3)) {
 		uint32_t k = vf_below(r, sizeof(flagsets) / sizeof(*flagsets));
-		g.sect = flagsets[k].sect; g.opt = flagsets[k].opt;
+		sect = flagsets[k].sect; opt = flagsets[k].opt;
 		keep_defaults = !k;
 	} else {
-		g.sect = 0x3f & (unsigned) vf_u64(r); g.opt = 0x3f & (unsigned) vf_u64(r);
+		sect = 0x3f & (unsigned) vf_u64(r); opt = 0x3f & (unsigned) vf_u64(r);
 	}
-	g.maxdepth = vf_range(r, 0, 5);
-	c09_gen_children(r, &g, root, 0);
-	mode = (int) ((idx / c09_nformats) % 3);
-	passes = vf_range(r, 2, 4);
-
-	if (g.sect == 0xff) strcpy(fl, "(all)"); else c09_flags_string(fl, g.sect, g.opt);
-	snprintf(desc, sizeof(desc), "%s fmt=%s%s%s flags=%s%s %s text, tree: %zu nodes (%zu sections, depth %zu)", c09_style_name[f->style],
-	         f->str ? "\"" : "", f->str ? f->str : "NULL", f->str ? "\"" : "", fl, keep_defaults ? " (parser defaults)" : "",
-	         mode == Canonical ? "canonical" : mode == Compact ? "compact" : "noisy", g.nodes, g.sections, g.depth);
-	vf_fp_u64(idx % c09_nformats);
-	vf_fp_u64(((uint64_t) g.sect << 16) | g.opt | ((uint64_t) mode << 40) | ((uint64_t) passes << 44));
-	c09_t_fp(root);
-
-	deco = *r;
-	memset(&ro, 0, sizeof(ro));
-	ro.f = f; ro.mode = mode; ro.r = &deco;
-	c09_render_doc(&ro, root);
-
-	/* file in the work directory of the harness */
+	if (sect == 0xff) strcpy(fl, "(all)"); else c09_flags_string(fl, sect, opt);
+	if (!keep_defaults) p.flags((uint16_t) sect, (uint16_t) opt);
+	else vf_count("flags:config_parser-defaults", 1);
 	if (!fname[0]) snprintf(fname, sizeof(fname), "c09cxx-%ld.conf", (long) getpid());
-	if (!(fp = fopen(fname, "wb")) || fwrite(ro.out.d, 1, ro.out.n, fp) != ro.out.n || fclose(fp)) {
-		vf_inconclusive("cannot write %s", fname);
-	}
-	if (vf_logging) {
-		vf_log("%s, %zu bytes in %s:", desc, ro.out.n, fname);
-		fwrite(ro.out.d, 1, ro.out.n > 4000 ? 4000 : ro.out.n, stderr);
-		fprintf(stderr, "\n----\n");
-	}
-	{
-		P p;
-		mpt::node kept;
+
+	for (int round = 0; round < rounds; round++) {
+		tnode *root = c09_t_new(1);
+		gen g;
+		render ro;
+		vf_rng deco;
+		char desc[220];
+		int passes, mode;
+		FILE *fp;
 		bool ok;
 
-		vf_at("config_parser::set_format");
-		ok = p.set_format(f->str);
-		VF_CHECK(ok, "model:cxx:set_format-refused", "%s: set_format refused a format of a known family", desc);
-		if (!keep_defaults) p.flags((uint16_t) g.sect, (uint16_t) g.opt);
-		else vf_count("flags:config_parser-defaults", 1);
-
-		vf_at("parser::open");
-		vf_count("parser::open", 1);
-		ok = p.open(fname);
-		VF_CHECK(ok, "model:cxx:open-failed", "%s: open(%s) failed", desc, fname);
-
-		for (int pass = 0; pass < passes; pass++) {
-			const char *phase = "cxx-read";
-			int reuse_node = pass && vf_chance(r, 1, 3);
-			int ret, how = 0;       /* 0 first read, 1 after reset, 2 after open */
-			cmp c;
-
-			if (pass) {
-				if (vf_chance(r, 1, 4)) {
-					phase = "cxx-reopen";
-					how = 2;
-					vf_at("parser::open");
-					vf_count("parser::open", 1);
-					ok = p.open(fname);
-					VF_CHECK(ok, "model:cxx:open-failed", "%s: pass %d: open(%s) failed", desc, pass + 1, fname);
-				} else {
-					phase = "cxx-reset";
-					how = 1;
-					vf_at("config_parser::reset");
-					vf_count("config_parser::reset", 1);
-					ok = p.reset();
-					VF_CHECK(ok, "model:cxx:reset-failed", "%s: pass %d: reset() failed", desc, pass + 1);
-				}
-			}
-			memset(&c, 0, sizeof(c));
-			c.phase = phase;
-			c.style = c09_style_name[f->style];
-			c.fstyle = f->style;
-			c.desc = desc;
-			c.text = &ro.out;
-			{
-				mpt::node fresh;
-				mpt::node &to = reuse_node ? kept : fresh;
-				vf_fp_u64(((uint64_t) how << 1) | (uint64_t) reuse_node);
-				vf_log("pass %d (%s, %s node)", pass + 1, phase, reuse_node ? "used" : "fresh");
-				vf_at("parser::read");
-				vf_count("parser::read", 1);
-				ret = p.read(to, 0);
-				vf_log(" = %d line=%zu", ret, p.line());
-				if (ret < 0) {
-					vf_fail(c09_mkkey(&c, "rejected"), "%s: pass %d of %d: read() returned %d at line %zu; text: %s",
-					        desc, pass + 1, passes, ret, p.line(), c09_excerpt(&ro.out));
-				}
-				if (root->nchild && !to.children) {
-					vf_fail(c09_mkkey(&c, "empty-result"), "%s: pass %d of %d: read() returned %d (success) but the node has no children, %zu expected; text: %s",
-					        desc, pass + 1, passes, ret, root->nchild, c09_excerpt(&ro.out));
-				}
-				c09_compare(&c, root, &to, to.children);
-				vf_count("monitor:names-compared", c.names);
-				vf_count("monitor:values-compared", c.values);
-				vf_count("monitor:links-compared", c.links);
-				vf_count(!how ? "monitor:trees-equal:first-read" : how == 1 ? "monitor:trees-equal:after-reset" : "monitor:trees-equal:after-reopen", 1);
-				if (reuse_node) vf_count("state:read-into-used-node", 1);
-			}
+		if (round) {
+			const format *o;
+			do { o = &c09_formats[vf_below(r, (uint32_t) c09_nformats)]; } while (o == f);
+			f = o;
 		}
+		memset(&g, 0, sizeof(g));
+		g.f = f;
+		g.sect = sect; g.opt = opt;
+		g.maxdepth = vf_range(r, 0, 5);
+		c09_gen_children(r, &g, root, 0);
+		mode = round ? (int) vf_below(r, 3) : (int) ((idx / c09_nformats) % 3);
+		passes = vf_range(r, 2, 4);
+
+		snprintf(desc, sizeof(desc), "%s%s fmt=%s%s%s flags=%s%s %s text, tree: %zu nodes (%zu sections, depth %zu)", round ? "(after format change) " : "",
+		         c09_style_name[f->style], f->str ? "\"" : "", f->str ? f->str : "NULL", f->str ? "\"" : "", fl, keep_defaults ? " (parser defaults)" : "",
+		         mode == Canonical ? "canonical" : mode == Compact ? "compact" : "noisy", g.nodes, g.sections, g.depth);
+		vf_fp_u64((uint64_t) (f - c09_formats) | ((uint64_t) round << 8));
+		vf_fp_u64(((uint64_t) g.sect << 16) | g.opt | ((uint64_t) mode << 40) | ((uint64_t) passes << 44));
+		c09_t_fp(root);
+
+		deco = *r;
+		memset(&ro, 0, sizeof(ro));
+		ro.f = f; ro.mode = mode; ro.r = &deco;
+		c09_render_doc(&ro, root);
+
+		/* file in the work directory of the harness */
+		if (!(fp = fopen(fname, "wb")) || fwrite(ro.out.d, 1, ro.out.n, fp) != ro.out.n || fclose(fp)) {
+			vf_inconclusive("cannot write %s", fname);
+		}
+		if (vf_logging) {
+			vf_log("%s, %zu bytes in %s:", desc, ro.out.n, fname);
+			fwrite(ro.out.d, 1, ro.out.n > 4000 ? 4000 : ro.out.n, stderr);
+			fprintf(stderr, "\n----\n");
+		}
+		{
+			mpt::node kept;
+			char *fmtblock = 0;
+			size_t fmtsize = 0;
+
+			if (f->str) {
+				fmtsize = strlen(f->str) + 1;
+				fmtblock = static_cast<char *>(vf_xalloc(fmtsize));
+				memcpy(fmtblock, f->str, fmtsize);
+			}
+			vf_at("config_parser::set_format");
+			vf_count("config_parser::set_format", 1);
+			ok = p.set_format(fmtblock);
+			VF_CHECK(ok, "model:cxx:set_format-refused", "%s: set_format refused a format of a known family", desc);
+			if (round) vf_count("state:format-changed-on-used-parser", 1);
+
+			vf_at("parser::open");
+			vf_count("parser::open", 1);
+			ok = p.open(fname);
+			VF_CHECK(ok, "model:cxx:open-failed", "%s: open(%s) failed", desc, fname);
+
+			for (int pass = 0; pass < passes; pass++) {
+				const char *phase = round ? "cxx-new-format" : "cxx-read";
+				int reuse_node = pass && vf_chance(r, 1, 3);
+				int ret, how = 0;       /* 0 first read, 1 after reset, 2 after open */
+				int refused = 0;
+				char refdesc[48] = "";
+				cmp c;
+
+				if (pass) {
+					if (vf_chance(r, 1, 4)) {
+						phase = "cxx-reopen";
+						how = 2;
+						vf_at("parser::open");
+						vf_count("parser::open", 1);
+						ok = p.open(fname);
+						VF_CHECK(ok, "model:cxx:open-failed", "%s: pass %d: open(%s) failed", desc, pass + 1, fname);
+					} else {
+						phase = "cxx-reset";
+						how = 1;
+						vf_at("config_parser::reset");
+						vf_count("config_parser::reset", 1);
+						ok = p.reset();
+						VF_CHECK(ok, "model:cxx:reset-failed", "%s: pass %d: reset() failed", desc, pass + 1);
+					}
+				}
+				/* a refused format must leave the parser as it is */
+				if (vf_chance(r, 2, 5)) {
+					for (int k = vf_range(r, 1, 2); k > 0; k--) {
+						size_t size;
+						char *bad = refused_format(r, f, &size);
+						snprintf(refdesc, sizeof(refdesc), "%s", bad);
+						vf_at("config_parser::set_format");
+						vf_count("config_parser::set_format", 1);
+						ok = p.set_format(bad);
+						VF_CHECK(!ok, "model:cxx:set_format-unknown-style-accepted", "%s: set_format(\"%s\") returned true for an unknown style character", desc, bad);
+						vf_xfree(bad, size);
+					}
+					refused = 1;
+					phase = "cxx-after-refused-format";
+				}
+				memset(&c, 0, sizeof(c));
+				c.phase = phase;
+				c.style = c09_style_name[f->style];
+				c.fstyle = f->style;
+				c.desc = desc;
+				c.text = &ro.out;
+				{
+					mpt::node fresh;
+					mpt::node &to = reuse_node ? kept : fresh;
+					vf_fp_u64(((uint64_t) how << 1) | (uint64_t) reuse_node | ((uint64_t) refused << 4));
+					vf_log("pass %d (%s, %s node%s%s)", pass + 1, phase, reuse_node ? "used" : "fresh", refused ? ", after refused set_format " : "", refdesc);
+					vf_at("parser::read");
+					vf_count("parser::read", 1);
+					ret = p.read(to, 0);
+					vf_log(" = %d line=%zu", ret, p.line());
+					if (ret < 0) {
+						vf_fail(c09_mkkey(&c, "rejected"), "%s: pass %d of %d%s%s: read() returned %d at line %zu; text: %s",
+						        desc, pass + 1, passes, refused ? " after refused set_format " : "", refdesc, ret, p.line(), c09_excerpt(&ro.out));
+					}
+					if (root->nchild && !to.children) {
+						vf_fail(c09_mkkey(&c, "empty-result"), "%s: pass %d of %d: read() returned %d (success) but the node has no children, %zu expected; text: %s",
+						        desc, pass + 1, passes, ret, root->nchild, c09_excerpt(&ro.out));
+					}
+					c09_compare(&c, root, &to, to.children);
+					vf_count("monitor:names-compared", c.names);
+					vf_count("monitor:values-compared", c.values);
+					vf_count("monitor:links-compared", c.links);
+					vf_count(!how ? "monitor:trees-equal:first-read" : how == 1 ? "monitor:trees-equal:after-reset" : "monitor:trees-equal:after-reopen", 1);
+					if (refused) vf_count("monitor:trees-equal:read-after-refused-set_format", 1);
+					if (round) vf_count("monitor:trees-equal:after-format-change", 1);
+					if (reuse_node) vf_count("state:read-into-used-node", 1);
+				}
+			}
+			if (fmtblock) vf_xfree(fmtblock, fmtsize);
+		}
+		vf_count(f->style == StylePrefix ? "style:prefix" : f->style == StyleEnclosed ? "style:enclosed" : "style:separated", 1);
+		vf_count(mode == Canonical ? "text:canonical" : mode == Compact ? "text:compact" : "text:noisy", 1);
+		vf_count("tree:nodes", g.nodes);
+		if (g.depth >= 3) vf_count("tree:depth>=3", 1);
+		if (g.val250 || g.val255) vf_count("tree:with-value-250..260", 1);
+		if (g.huge) vf_count("tree:with-value-65530..65540", 1);
+		if (root->nchild && !root->child[root->nchild - 1]->section) vf_count("tree:last-top-level-element-is-option", 1);
+		if (g.nodes >= 3 && (g.sections || f->style == StyleSeparated)) vf_nontrivial();
+		if (idx < 64 && !round) vf_sample("%s, %d passes | text: %s", desc, passes, c09_excerpt(&ro.out));
+		free(ro.out.d);
+		c09_t_free(root);
 	}
 	unlink(fname);
-	vf_count(f->style == StylePrefix ? "style:prefix" : f->style == StyleEnclosed ? "style:enclosed" : "style:separated", 1);
-	vf_count(mode == Canonical ? "text:canonical" : mode == Compact ? "text:compact" : "text:noisy", 1);
-	vf_count("tree:nodes", g.nodes);
-	if (g.depth >= 3) vf_count("tree:depth>=3", 1);
-	if (g.val250 || g.val255) vf_count("tree:with-value-250..260", 1);
-	if (g.huge) vf_count("tree:with-value-65530..65540", 1);
-	if (root->nchild && !root->child[root->nchild - 1]->section) vf_count("tree:last-top-level-element-is-option", 1);
-	if (g.nodes >= 3 && (g.sections || f->style == StyleSeparated)) vf_nontrivial();
-	if (idx < 64) vf_sample("%s, %d passes | text: %s", desc, passes, c09_excerpt(&ro.out));
-	free(ro.out.d);
-	c09_t_free(root);
 }
